@@ -45,6 +45,10 @@ func iterateShared(fn subscription.IterateFn, options subscription.IterationOpti
 		var topicFilter string
 		if strings.HasPrefix(options.TopicName, "$share/") {
 			shared := strings.SplitN(options.TopicName, "/", 3)
+			if len(shared) < 3 {
+				// "$share/" or "$share/name": no filter, nothing is stored under it
+				return true
+			}
 			shareName = shared[1]
 			topicFilter = shared[2]
 		} else {
